@@ -1,14 +1,58 @@
 /-
   C18  Settings obey command line > environment > default; bad values are refused.
-  PROPERTY THEOREMS ONLY (helper lemmas live in PdshVerif/Opt/Lemmas.lean).
+  PROPERTY THEOREMS ONLY (helper lemmas live in PdshVerif/Opt/{Lemmas,Accept,Table,Command}.lean).
 
-  Model: PdshVerif/Opt/Settings.lean (`effective` = opt_default, opt_env, getopt, opt_args_early, opt_args,
-  opt_verify with the C conversions of Base/CInt.lean).  `lastArg ch toks` = the argument of the last
-  occurrence of option `-ch` among getopt's answers for the command line.
+  Model: PdshVerif/Opt/Settings.lean (`mainPlan` = main as a whole: opt_default, opt_env, getopt, opt_args_early,
+  opt_args incl. the assembly of the remote command / the file list, opt_verify, and main's decision what to start;
+  `effective` = the same up to opt_verify; C conversions of Base/CInt.lean).  `lastArg ch toks` = the argument of the
+  last occurrence of option `-ch` among getopt's answers for the command line.
 
-  `Fixes.none` = the code as it is in /repo; a theorem that needs a repair names the switch
-  (`fx.d4`, `fx.d5`, `fx.atoi`, `fx.dopt`).  Statements that are FALSE of the unchanged code have a
-  kernel-checked counterexample `..._unchanged_false`; what does hold for it is `..._partial`.
+  `Fixes.none` = the code as it was at the pinned commit; a theorem that needs a repair names the switch
+  (`fx.d4`, `fx.d5`, `fx.atoi`, `fx.dopt`, `fx.wuser`, `fx.early`).  Statements that are FALSE of the unchanged code
+  have a kernel-checked counterexample `..._unchanged_false`; what does hold for it is `..._partial`.
+
+  CLAUSE OF THE PROPERTY TEXT                                   THEOREM(S)
+  "every run-time setting (fanout, time-outs, remote user,      precedence (all seven, every variant, environment,
+   transport, module selection, remote pdcp path) takes the      command line, option order, personality);
+   value given on the command line if present, else the one      env_table_precedence / opt_table_precedence (for every
+   from its environment variable, else the built-in default"     row of the table DERIVED FROM THE BEHAVIOUR of opt.c);
+                                                                 takes_value_given (valid texts: the very number / text)
+  "independent of option order and of which other options        independent, lastArg_other_options, spelling_independent
+   are present"                                                  (getopt_spelled: every way getopt lets options be
+                                                                 written), precedence_misc (module selection: repaired
+                                                                 `early`; unchanged: misc_order_dependent_unchanged_false,
+                                                                 open finding C18-EARLY-PASS-MODULE-OPTION)
+  "a fanout that is not a positive integer, a negative           rejected (repaired d4 d5 atoi), rejected_partial (every
+   time-out, an over-long user name, an unknown transport, a     variant), numeric_exact_or_refused (every int row of the
+   malformed numeric environment value is rejected"              generated table), wcoll_refused (values given per target
+                                                                 in -w words), witnesses rejected_unchanged_false,
+                                                                 rejected_witnesses_repaired, wcoll_user_unchanged_false
+  "with a diagnostic and a non-zero exit before anything is      refused_nothing_started, refusal_exits_1 (status 1, or 0
+   contacted"                                                    only for -L -V -T); that a diagnostic is printed is
+                                                                 observed on the real binary (oracle), not modelled
+  "pdsh never hangs on it"                                       never_hangs, never_hangs_whole (main as a whole, all
+                                                                 three personalities; feeds C03's `f >= 1`),
+                                                                 never_hangs_unchanged_false
+  valid values are accepted (the converse the text implies)      accepts_valid, takes_value_given
+  the switch of opt_args, letter by letter                       switch_table_agrees, switch_table_complete, switch_rows_act,
+                                                                 numeric_options_use_table_conv
+  pdsh / pdcp / rpdcp option sets (generated option strings)     personality_letters, dsh_remote_path_default,
+                                                                 pcp_no_S_no_k, S_k_iff_on_command_line
+  the remote command, the prompt loop (main as a whole)          command_is_operands, command_words_verbatim,
+                                                                 command_any_spelling, interactive_iff_no_command,
+                                                                 started_run_or_loop, main_witnesses
+
+  NOT PROVED / NOT MODELLED (correspondence only, or outside):
+    * glibc getopt / strtol / strtoul / atoi are modelled (Settings.lean, Base/CInt.lean), not verified; tied to the
+      real functions by the differential runs of checks/c18.py.
+    * that a refusal prints a diagnostic naming the offender: observed on the real binary (oracle clause
+      `rejected-without-diagnostic`, evidence `refusal_kinds`), no theorem.
+    * WCOLL, `^file` / `/regex/` / `-host` words, `-w -` (targets from stdin, `stdin_unavailable`), `-x`, module-supplied
+      target lists: they select TARGETS (C02, C10); here they only matter through "no targets" (a refusal).
+    * DSHPATH (row of the generated environment table, member dshpath): part of the command C09 sends.
+    * -z / -Z / -y (pdcp server / client modes started by pdcp itself): modelled (optVerifyModes, `plan`) and under
+      the correspondence, but the theorems about refusals carry the hypothesis pcpServer = pcpClient = false.
+    * what a module's option handler does with its argument; only its arity matters here (`Defaults.modOpts`).
 -/
 import PdshVerif.Opt.Settings
 import PdshVerif.Opt.Spec
@@ -1040,17 +1084,24 @@ theorem dsh_remote_path_default {fx : Fixes} {d : Defaults} {env : Env} {argv : 
     are off (a command line that mentions them is refused) — which is why a copy run that was started exits 0
     (C08.pcp_exit0).  (`hm`: no module registers `-S` / `-k`.) -/
 theorem pcp_no_S_no_k {fx : Fixes} {d : Defaults} {p : Pers} {env : Env} {argv : List Str} {c : Cfg}
-    (hp : p.isPcp = true) (hmS : optKind (fullString d p) 'S' = none) (hmk : optKind (fullString d p) 'k' = none)
-    (h : effective fx d p env argv = .ok c) : c.retRemoteRc = false ∧ c.killOnFail = false := by
-  have hS : ∀ ch, caseOf ch = .flag .S → optKind (fullString d p) ch = none := by
-    intro ch hc
-    have : ch = 'S' := by unfold caseOf at hc; split at hc <;> first | rfl | (simp at hc)
-    rw [this]; exact hmS
-  have hk : ∀ ch, caseOf ch = .flag .k → optKind (fullString d p) ch = none := by
-    intro ch hc
-    have : ch = 'k' := by unfold caseOf at hc; split at hc <;> first | rfl | (simp at hc)
-    rw [this]; exact hmk
-  exact ⟨flag_off_of_unknown h .S (by decide) hS, flag_off_of_unknown h .k (by decide) hk⟩
+    (hmS : optKind (fullString d p) 'S' = none) (hmk : optKind (fullString d p) 'k' = none)
+    (h : effective fx d p env argv = .ok c) : c.retRemoteRc = false ∧ c.killOnFail = false :=
+  pcp_flags_off hmS hmk h
+
+/-- -S and -k have no variable and no default other than "off": they are in force exactly when the command line
+    has the option, wherever it stands (C08's "with -S" / "with -k" are these two flags) -/
+theorem S_k_iff_on_command_line {fx : Fixes} {d : Defaults} {p : Pers} {env : Env} {argv : List Str} {c : Cfg}
+    (h : effective fx d p env argv = .ok c) :
+    (c.retRemoteRc = true ↔ ∃ arg, Tok.opt 'S' arg ∈ (getopt (fullString d p) argv).1) ∧
+    (c.killOnFail = true ↔ ∃ arg, Tok.opt 'k' arg ∈ (getopt (fullString d p) argv).1) :=
+  flag_S_iff h
+
+/-- A REFUSAL EXITS 1: when main ends before dsh(), the status is 1 (C08's "1 when it refuses its arguments") —
+    unless an option that only asks for information (-L, -V, -T) is on the command line, which ends with 0 -/
+theorem refusal_exits_1 {fx : Fixes} {d : Defaults} {p : Pers} {env : Env} {argv : List Str} {n : Nat}
+    (h : mainPlan fx d p env argv = .error n) :
+    n = 1 ∨ (n = 0 ∧ ∃ t ∈ (getopt (fullString d p) argv).1, action fx d t = .exit 0) :=
+  effective_exit_code ((refused_nothing_started fx d p env argv n).mp h)
 
 /-- the shipped build (no module registers options): the hypotheses `hm` above hold -/
 example (d : Defaults) (h : d.modOpts = []) :
